@@ -26,18 +26,31 @@ KEYS = {'container': ['ContainerName', 'Exec', 'Environment', 'Label', 'Annotati
         'volume': ['VolumeName', 'Label', 'Device', 'Options', 'PodmanArgs', 'Driver', 'ServiceName'],
         'network': ['NetworkName', 'Label', 'Options', 'PodmanArgs', 'Subnet', 'DNS', 'ServiceName'],
         'pod': ['PodName', 'PodmanArgs', 'Volume', 'NetworkAlias', 'AddHost', 'ServiceName'],
-        'kube': ['Yaml', 'ConfigMap', 'PodmanArgs', 'LogDriver', 'ExitCodePropagation', 'ServiceName'],
+        'kube': ['Yaml', 'ConfigMap', 'PodmanArgs', 'LogDriver', 'ExitCodePropagation', 'ServiceName', 'SetWorkingDirectory', 'SetWorkingDirectory'],
         'image': ['Image', 'ImageTag', 'Creds', 'PodmanArgs', 'AuthFile', 'ServiceName'],
-        'build': ['ImageTag', 'File', 'Label', 'Environment', 'Secret', 'Target', 'PodmanArgs', 'ServiceName']}
+        'build': ['ImageTag', 'File', 'Label', 'Environment', 'Secret', 'Target', 'PodmanArgs', 'ServiceName', 'SetWorkingDirectory', 'SetWorkingDirectory']}
+# directories the units are put in (below the search directory): the unit's own directory flows into generated values
+UNIT_DIRS = ['', '', '', 'sub', 'a b', 'a\nb', 'x\n[Service]\nExecStartPre=evil', 'a\\nb', 'é', 'q"r', "it's", '%h', ' lead', 'trail ', '#c', 'a=b', 'a\rb', 'a\tb']
+# keys whose value is a path some directory part of which is copied into the service
+PATH_KEYS = {'Yaml', 'File', 'ConfigMap', 'EnvironmentFile', 'AuthFile', 'SetWorkingDirectory'}
 FILE_STEMS = ['a', 'x y', 'é', 'a=b', 'a[1]', '#h', ';s', "it's", 'q"r', 'b\\c', 'tpl@', 'tpl@i n', '%n', 'a\tb']
 
 
 def gen_unit(ctx, ty):
     rnd = ctx.rnd
-    lines = ['[' + G.SEC[ty] + ']'] + list(G.BASE[ty])
+    base = list(G.BASE[ty])
+    if ty in ('kube', 'build') and rnd.random() < 0.4:
+        # the one Yaml= / File= with the nasty text in a directory part (the parent directory becomes WorkingDirectory=)
+        key = 'Yaml' if ty == 'kube' else 'File'
+        base = [b for b in base if not b.startswith(key + '=')] + [f'{key}={rnd.choice(["/opt/", "", "rel/"])}{rnd.choice(NASTY)}/k.yaml']
+    lines = ['[' + G.SEC[ty] + ']'] + base
     for _ in range(rnd.randint(1, 5)):
         k = rnd.choice(KEYS[ty])
         v = rnd.choice(NASTY if rnd.random() < 0.7 else G.VALS)
+        if k == 'SetWorkingDirectory':
+            v = rnd.choice(['yaml', 'file', 'unit', 'unit', 'ctx/dir', rnd.choice(NASTY) + '/ctx', '/abs/' + rnd.choice(NASTY)])
+        elif k in PATH_KEYS and rnd.random() < 0.4:
+            v = rnd.choice(['/opt/', '', 'rel/']) + v + '/f'
         if k == 'ServiceName' and ('/' in v or rnd.random() < 0.6):
             continue
         lines.append(f'{k}={v}')
@@ -52,7 +65,8 @@ def corr_ops(ctx):
     ops = []
     for _ in range(3000 if ctx.thorough else 600):
         ty = rnd.choice(G.TYPES)
-        name = rnd.choice(FILE_STEMS) + '.' + ty
+        d = rnd.choice(UNIT_DIRS)
+        name = (d + '/' if d else '') + rnd.choice(FILE_STEMS) + '.' + ty
         text = gen_unit(ctx, ty)
         ctx._c06.append((name, text))
         ops.append(f'convert\t0\t0\t{hx("/q/" + name)}\t{hx(text)}')
@@ -86,9 +100,20 @@ def oracle(ctx):
         units = []
         for _ in range(600):
             ty = rnd.choice(G.TYPES)
-            units.append((rnd.choice(FILE_STEMS) + '.' + ty, gen_unit(ctx, ty)))
+            d = rnd.choice(UNIT_DIRS)
+            units.append(((d + '/' if d else '') + rnd.choice(FILE_STEMS) + '.' + ty, gen_unit(ctx, ty)))
     known = {k['id']: k for k in ctx.known}
     units = list(units)
+    # (T1) where text reaches a unit without the value quoter: inventory regenerated from the source vs the reviewed classification
+    import sys
+    rc0, out0, err0 = core.sh([sys.executable, os.path.join(core.VERIF, 'tools', 'raw_sites.py'), core.REPO, os.path.join(core.BUILD, 'raw_sites.json')])
+    sites = json.load(open(os.path.join(core.BUILD, 'raw_sites.json'))) if rc0 == 0 else []
+    spec = {(x['file'], x['fn'], x['kind'], x['args'], x['n']) for x in json.load(open(os.path.join(core.VERIF, 'spec', 'raw_sites.json')))}
+    have = {(x['file'], x['fn'], x['kind'], x['args'], x['n']) for x in sites}
+    diff = sorted(have ^ spec)
+    res.extra_obligations.append(('raw-store / serialiser site inventory matches the reviewed classification (spec/raw_sites.json)', rc0 == 0 and not diff,
+                                  'sites that differ: ' + '; '.join(f'{d[0]}:{d[1]}: {d[2]}{d[3][:80]}' for d in diff[:6])))
+    res.notes.append(f'{len(sites)} raw-store / serialiser sites inventoried, {len(diff)} differ from the classification')
     for k in ctx.known:
         ex = json.load(open(os.path.join(core.VERIF, 'known_findings.d', k['example'])))
         units.append(('kf1.container', ex['input']))
@@ -101,9 +126,11 @@ def oracle(ctx):
     # 2. real write, independent read-back
     batch = []
     for i in range(0, len(units), 8):
-        group = {}
+        group, seen = {}, set()
         for name, text in units[i:i + 8]:
-            if name not in group:
+            # one unit per file name in a run: a second one of the same name in another directory is shadowed (C13), not converted
+            if os.path.basename(name) not in seen:
+                seen.add(os.path.basename(name))
                 group[name] = text
         batch.append(group)
 
